@@ -23,6 +23,9 @@ type ItemC10 struct {
 type AnnC10 struct {
 	Route string    `json:"route"`
 	Items []ItemC10 `json:"items"`
+	// Wait: the replica comes to rest (parked fetches released in the drawn order) before the next announcement,
+	// so that a later announcement finds the earlier one's entries already merged
+	Wait bool `json:"wait,omitempty"`
 }
 
 type CaseC10 struct {
@@ -53,6 +56,7 @@ func genC10(rt *rapid.T) CaseC10 {
 			it.Idx = rapid.IntRange(0, 30).Draw(rt, "idx")
 			a.Items = append(a.Items, it)
 		}
+		a.Wait = rapid.Bool().Draw(rt, "wait")
 		c.Anns = append(c.Anns, a)
 	}
 	c.Gated = rapid.Bool().Draw(rt, "gated")
@@ -174,6 +178,18 @@ func execC10(c CaseC10) *Outcome {
 		}
 		if err := env.deliver(ctx, a.Route, heads); err != nil {
 			return fail("harness: deliver announcement %d: %v", ai, err)
+		}
+		if a.Wait && ai < len(c.Anns)-1 {
+			until := time.Now().Add(5 * time.Second) // (a schedule choice, not an oracle: no rest within it is fine)
+			for time.Now().Before(until) {
+				if c.Gated && len(pv.Parked()) > 0 {
+					releaseOne()
+					continue
+				}
+				if cl.W.WaitQuiescent([]iface.Store{v}, nil, 50*time.Millisecond) && len(pv.Parked()) == 0 {
+					break
+				}
+			}
 		}
 		if c.Gated {
 			for k := 0; k < 1+ai; k++ {
